@@ -15,12 +15,58 @@ d) transform_where_clause_for_event_type (used by the per-type sub-query push-do
    Followed through same-module helpers and Option::map-style closures, so extracting the leaf rewrite into a helper is not reported.
 c) match_sequences tests `all_matches.len() >= limit` before processing a group and truncates after extending (LIMIT bounds the number of matched sequences).
 """
-FLOOR = 11
-REQUIRED = ["C15.a1", "C15.a2", "C15.a3", "C15.b", "C15.c", "C15.d", "C15.e", "C15.f", "C15.g", "C15.h", "C15.i"]
+FLOOR = 12
+REQUIRED = ["C15.a1", "C15.a2", "C15.a3", "C15.b", "C15.c", "C15.d", "C15.e", "C15.f", "C15.g", "C15.h", "C15.i", "C15.j"]
 
 
 def run(ctx):
     F = ctx.F
+
+    def where_site(b):
+        """How a matcher applies WHERE to a candidate pair. Either it calls matches_where_clause itself ('direct'), or it hands
+        a closure that calls it to a search adaptor (Iterator::find / position / rfind ...: 'search') and goes on with the
+        candidate found. Returns dict(mode, wc, body (where wc lives), env (upvar name -> parent operand), guard (edges in b on
+        which WHERE is known to have passed), fc (the search call), closure (its body))."""
+        direct = [c for c in b.calls if not c.cleanup and c.nname.endswith("SequenceMatcher::matches_where_clause")]
+        if len(direct) == 1:
+            return {"mode": "direct", "wc": direct[0], "body": b, "env": None, "guard": bool_result_edge(b, direct[0], True), "fc": None}
+        if len(direct) > 1:
+            raise AnchorMissing("one matches_where_clause call in %s (%d)" % (b.key, len(direct)))
+        found = []
+        for i, blk in enumerate(b.blocks):
+            for st in blk["s"]:
+                v = st.get("v")
+                if v and v.get("r") == "agg" and v.get("ak") == "closure" and v.get("def") and F.has(v["def"]):
+                    C = F.fn_exact(v["def"])
+                    wcs = [c for c in C.calls if not c.cleanup and c.nname.endswith("SequenceMatcher::matches_where_clause")]
+                    if wcs:
+                        found.append((C, wcs, v, st["a"][0]))
+        if len(found) != 1 or len(found[0][1]) != 1:
+            raise AnchorMissing("matches_where_clause in %s or in one closure it passes to a search adaptor (%d)" % (b.key, len(found)))
+        C, wcs, v, cl_local = found[0]
+        ups = C.rec.get("upvars") or []
+        env = {}
+        for idx, u in enumerate(ups):
+            nm = u if isinstance(u, str) else (u.get("n") if isinstance(u, dict) else None)
+            if nm is not None and idx < len(v["o"]):
+                env[nm] = v["o"][idx]
+        fcs = [c for c in b.calls if not c.cleanup and re.search(r"Iterator>::(find|rfind|position|rposition|find_map)$|Iterator::(find|rfind|position|find_map)$", c.nname)
+               and any(cl_local in b._origin_locals(a_) for a_ in c.args[1:])]
+        if len(fcs) != 1:
+            raise AnchorMissing("the search adaptor the WHERE closure of %s is passed to (%d)" % (b.key, len(fcs)))
+        fc = fcs[0]
+        # the closure answers true only with the answer of matches_where_clause
+        rets = C.origins({"m": [0]}) | C.origins({"c": [0]})
+        okret = all((l[0] == "const" and str(l[1]).startswith("false")) or (l[0] == "call" and l[2] == wcs[0].bb) for l in rets)
+        guard = []
+        try:
+            guard += variant_edge(b, fc, "Some", all_=True)
+        except AnchorMissing:
+            pass
+        for c in b.calls:
+            if not c.cleanup and c.nname.endswith("Option::is_some") and (b._origin_locals(c.args[0]) & {l for l, _ in b.flow_forward(fc.dest)}):
+                guard += bool_result_edge(b, c, True)
+        return {"mode": "search", "wc": wcs[0], "body": C, "env": env, "guard": guard if okret else [], "fc": fc, "okret": okret}
 
     def pair(name, want_op):
         def f(inst):
@@ -29,9 +75,10 @@ def run(ctx):
             if len(push) != 1:
                 raise AnchorMissing("results.push(MatchedSequenceIndices) in %s (%d)" % (name, len(push)))
             p = push[0]
-            wc = one(b, r"SequenceMatcher::matches_where_clause$")
+            ws = where_site(b)
+            wc = ws["wc"]
             gts = calls(b, r"SequenceMatcher::get_timestamp$", 2)
-            inst.sites = [sp(b, p.bb), sp(b, wc.bb)] + [sp(b, g.bb) for g in gts]
+            inst.sites = [sp(b, p.bb), "WHERE applied %s @ %s" % ("in the matcher" if ws["mode"] == "direct" else "by a closure handed to %s" % ws["fc"].nname.split("::")[-1], sp(ws["body"], wc.bb))] + [sp(b, g.bb) for g in gts]
 
             # parameters: (&self, group, event_type_a, event_type_b, zones_by_event_type) -> locals 3 and 4 are the two sides
             def side_of(op):
@@ -69,12 +116,22 @@ def run(ctx):
             bad = []
             if not g:
                 bad.append(("time-guard", "%s pushes a pair without the guard %s(ts_b, ts_a) (guards seen: %s)" % (name, want_op, sorted(set(seen_guard))), None))
-            te = bool_result_edge(b, wc, True)
-            if not any(b.dominates_edge(e, p.bb) for e in te):
+            te = ws["guard"]
+            if not te or not any(b.dominates_edge(e, p.bb) for e in te):
                 bad.append(("where-guard", "%s pushes a pair that did not pass matches_where_clause" % name, None))
             # WHERE gets two consistent (event type, zones, row) triples, one per side
             def sides(op):
-                return side_of(op)
+                if ws["mode"] == "direct":
+                    return side_of(op)
+                C = ws["body"]
+                out = set()
+                for l2 in C.origins(op):
+                    if l2[0] == "upvar" and l2[1] in ws["env"]:
+                        out |= side_of(ws["env"][l2[1]])
+                    elif l2[0] == "param" and l2[1] != "self":
+                        # the candidate the adaptor feeds the closure: an element of the searched list
+                        out |= side_of(ws["fc"].args[0])
+                return out
             tri = [[sides(wc.args[i]) for i in (1, 2, 3)], [sides(wc.args[i]) for i in (4, 5, 6)]]
             ok = all(len(x) == 1 for t in tri for x in t) and all(t[0] == t[1] == t[2] for t in tri) and tri[0][0] != tri[1][0]
             inst.sites.append("WHERE triples: %s" % tri)
@@ -198,6 +255,46 @@ def run(ctx):
         return bad
     ctx.run("C15.b", "K6 TABLE", "SequenceMatcher::match_in_group", "each link kind uses its own matcher", b_)
 
+    def j_(inst):
+        """A sequence result holds events of two types with different payload fields. The result schema must take its payload columns
+        from every matched event (a loop over the events), not from the first one."""
+        bad = []
+        m = F.fn("SequenceStreamMerger::create_result_stream")
+        specs = [c for c in m.calls if not c.cleanup and c.nname.endswith("Vec::push") and any(l[0] == "agg" and l[1].endswith("ColumnSpec") for l in m.origins(c.args[1]))]
+        if not specs:
+            raise AnchorMissing("columns.push(ColumnSpec{..}) in create_result_stream")
+        ok = False
+        for c in specs:
+            # the field name of the pushed spec comes from a payload map ...
+            names = set()
+            for (bb, jx, v, dst) in m.aggregates("ColumnSpec"):
+                if bb != [l for l in m.origins(c.args[1]) if l[0] == "agg"][0][2]:
+                    continue
+                o = dict(zip(v.get("fields", []), v["o"])).get("name")
+                for l in m.origins(o):
+                    names.add(l)
+            for l in names:
+                if l[0] != "call" or not l[1].endswith("::next"):
+                    continue
+                # ... iterated inside a loop whose map is `.payload` of an element of a loop over the events
+                inner = m.call_at(l[2])
+                for x in set(m.origins(inner.args[0])) | set(m.origins(inner.args[0], transparent=NEXT_TRANSPARENT)):
+                    if x[0] == "call" and x[1].endswith("::next") and len(x) > 3 and ".payload" in x[3]:
+                        outer = m.call_at(x[2])
+                        if any(y[0] in ("upvar", "param") and y[1] == "events" and not any(str(e).startswith("[") for e in (y[2] if len(y) > 2 else ())) for y in set(m.origins(outer.args[0])) | set(m.origins(outer.args[0], transparent=NEXT_TRANSPARENT))):
+                            ok = True
+                            inst.sites.append("payload columns from a loop over all events @ %s" % sp(m, outer.bb))
+                    elif x[0] in ("upvar", "param") and len(x) > 2 and any(str(e).startswith("[") for e in x[2]):
+                        inst.sites.append("payload columns from one indexed event %s" % (x[2],))
+                    elif x[0] in ("upvar", "param") and x[1] == "events" and len(x) > 2 and ".payload" in x[2] and "@Some" in x[2]:
+                        # seen through the outer loop's next(): an element of a loop over the events
+                        ok = True
+                        inst.sites.append("payload columns from a loop over all events (%s)" % (x[2],))
+        if not ok:
+            bad.append(("schema-from-first-event", "create_result_stream takes the payload columns of the result from one event: the fields only the other event type of the sequence has are dropped", sp(m, specs[-1].bb)))
+        return bad
+    ctx.run("C15.j", "K9 LOOP", "SequenceStreamMerger::create_result_stream", "the result schema covers the payload fields of every matched event", j_)
+
     def f_(inst):
         """Times are signed (events before 1970 have negative epoch seconds). The matcher and the grouper order rows by the i64 the
         accessor returns; casting it to u64 makes every negative time sort after all others and breaks the sorted precondition
@@ -301,8 +398,29 @@ def run(ctx):
         row_eq = [c for c in P.calls if not c.cleanup and re.search(r"::(eq|ne)$", c.nname) and len(c.args) == 2 and c not in ty_eq and
                   sum(1 for a_ in c.args if any(P._origin_locals(a_) & r for r in rows)) == 2]
         cut = []
+        ws = where_site(P)
+        if ws["mode"] == "search" and ty_eq:
+            # the self-exclusion may live in the partner search: the closure answers with matches_where_clause only behind
+            # {captured `types are equal` is false, candidate row differs from the a-row}
+            C = ws["body"]
+            same_up = {nm for nm, op_ in ws["env"].items() if any(l[0] == "call" and l[2] in {c.bb for c in ty_eq} for l in P.origins(op_))}
+            ccut = []
+            for i_, si_ in bool_switches_on(C, lambda L: any(l[0] == "upvar" and l[1] in same_up for l in L)):
+                if si_["false"] is not None:
+                    ccut.append((i_, si_["false"]))
+            ceq = [c for c in C.calls if not c.cleanup and re.search(r"::(eq|ne)$", c.nname) and len(c.args) == 2 and
+                   any(l[0] == "param" and l[1] != "self" for a_ in c.args for l in C.origins(a_)) and
+                   any(l[0] == "upvar" and l[1] in ws["env"] and (P._origin_locals(ws["env"][l[1]]) & set().union(*rows)) for a_ in c.args for l in C.origins(a_))]
+            for c in ceq:
+                ccut += bool_result_edge(C, c, c.nname.endswith("::ne"))
+            inst.sites += ["self-exclusion in the partner search closure: captured type test %s, row test @ %s" % (sorted(same_up), [sp(C, c.bb) for c in ceq])]
+            if ccut and ceq and same_up and ws["wc"].bb not in set(C.reach(0, cut_edges=ccut)) and ws.get("okret"):
+                return bad
         for c in ty_eq + row_eq:
-            cut += bool_result_edge(P, c, c.nname.endswith("::ne"))
+            try:
+                cut += bool_result_edge(P, c, c.nname.endswith("::ne"))
+            except AnchorMissing:
+                pass
         inst.sites += [sp(P, c.bb) for c in ty_eq + row_eq]
         if not cut or push[0].bb in set(P.reach(0, cut_edges=cut)):
             bad.append(("self-successor", "match_followed_by can record a pair without having established that the two event types or the two rows differ: with A FOLLOWED BY A every event is paired with itself", sp(P, push[0].bb)))
@@ -391,14 +509,39 @@ def run(ctx):
                 pa, pb = ptrs_of_ts(d["a"]), ptrs_of_ts(d["b"])
                 if not pa or not pb or pa & pb:
                     continue
+
+                def opside(op_):
+                    out = set()
+                    for l in P.origins(op_):
+                        if l[0] == "call" and "get_timestamp" in l[1]:
+                            c = P.call_at(l[2])
+                            ds = [deep_locals(P, a_, wide=True) | wide_all(P, a_) for a_ in (c.args[1], c.args[2])]
+                            for nm, loc in (("a", 3), ("b", 4)):
+                                if all(loc in d_ for d_ in ds):
+                                    out.add(nm)
+                    return out
+                sa_, sb_ = opside(d["a"]), opside(d["b"])
+                partner = pa if sa_ == {"b"} else (pb if sb_ == {"b"} else None)
                 for truth, tgt in ((True, si["true"]), (False, si["false"])):
                     if tgt is None:
                         continue
                     # the arm: blocks reachable from the edge until the comparison is reached again
                     region = set(P.reach(0, src_edges=[(i, tgt)], cut_blocks=[i]))
+                    op = d["op"]
+                    lesser_ = {("Lt", True): "a", ("Lt", False): "b", ("Le", True): "a", ("Le", False): "b",
+                               ("Gt", True): "b", ("Gt", False): "a", ("Ge", True): "b", ("Ge", False): "a"}[(op, truth)]
+                    # the partner list's pointer (side b) moves only when the partner's time is the lesser one: a partner whose
+                    # time qualifies for this anchor may be the partner of later anchors too (also when it is skipped for
+                    # another reason, e.g. because it is the anchor row itself)
+                    if partner is not None and (pa if lesser_ == "a" else pb) != partner:
+                        for r_, bl in incs.items():
+                            fam = (P._origin_locals({"c": [r_]}) | {r_}) & roots
+                            if fam & partner and any(x in region for x in bl):
+                                n_arms += 0
+                                bad.append(("partner-advanced-while-qualifying:%s" % short, "%s: the pointer into the partner list (%s) is advanced on an arm where the partner's time qualifies (%s is %s): that partner is lost for later anchors, and with equal times which pairs come back depends on the arrival order" % (
+                                    short, P.local_name(r_) or "_%d" % r_, op, truth), sp(P, i)))
                     if any(c.bb in region for c in push):
                         continue
-                    op = d["op"]
                     # which operand is the lesser (or equal) one on this arm
                     lesser = {("Lt", True): "a", ("Lt", False): "b", ("Le", True): "a", ("Le", False): "b",
                               ("Gt", True): "b", ("Gt", False): "a", ("Ge", True): "b", ("Ge", False): "a"}[(op, truth)]
